@@ -1,3 +1,4 @@
+import TakVerif.Props.C04_ab
 import TakVerif.Props.C04_book
 /-! # C04 — every searching player answers a live position with a legal move
 
